@@ -67,6 +67,21 @@ class Ctx:
                 self.violations.append({"signature": signature, "message": message, "case": case})
 
 
+def _rejects_library_model(e):
+    try:
+        from pydantic import ValidationError
+
+        if not isinstance(e, ValidationError):
+            return False
+        import curies
+        import curies.api
+        import curies.triples
+
+        return any(isinstance(getattr(m, str(e.title), None), type) for m in (curies, curies.api, curies.triples))
+    except Exception:  # noqa
+        return False
+
+
 def _alarm(signum, frame):
     raise Hang()
 
@@ -94,6 +109,10 @@ def run_one(modname, idx, unit, timeout):
                 f"unexpected {type(e).__name__}: {str(e)[:160]} (raised in {fr.name})",
                 {"unit": unit},
             )
+        elif _rejects_library_model(e):
+            # pydantic raises its ValidationError from its own frames: the library's model refused an object the harness built
+            # inside the quantifier (where a refusal is expected the property module catches it itself)
+            ctx.violation(f"crash/ValidationError-rejecting-{e.title}", f"unexpected ValidationError: {str(e)[:200]}", {"unit": unit})
         else:
             err = traceback.format_exc()
     finally:
